@@ -41,6 +41,25 @@ type Conn struct {
 	// link: the other end when two mangos sockets talk to each other over the harness network
 	// (what is written here is read there, in the chunks it was written in)
 	link *Conn
+	// WriteLimit: total number of bytes this connection accepts before writes start failing (0: no limit). The
+	// write that crosses the limit is cut short: it reports the bytes that still fitted and ErrReset.
+	WriteLimit int
+	reset      bool
+	acceptErr  error
+	pushed     int   // chunks put into inq so far
+	popped     int   // chunks taken out so far
+	resets     []int // positions (in push order) of reset markers
+}
+
+// ErrReset is what reads and writes report after the peer reset the connection.
+var ErrReset = errors.New("vnet: connection reset by peer")
+
+// PeerReset: the peer resets the connection: once what was sent before has been read, reads fail with ErrReset
+// (not io.EOF), and so do writes.
+func (c *Conn) PeerReset() {
+	c.resets = append(c.resets, c.pushed)
+	c.inq <- []byte{0}
+	c.pushed++
 }
 
 // NextCred: peer credentials given to the next connection created (then cleared)
@@ -63,8 +82,18 @@ func (c *Conn) Read(b []byte) (int, error) {
 		select {
 		case chunk := <-c.inq:
 			if chunk == nil {
+				c.popped++
 				c.eof = true
 				return 0, io.EOF
+			}
+			for _, k := range c.resets {
+				if k == c.popped {
+					c.reset = true
+				}
+			}
+			c.popped++
+			if c.reset {
+				return 0, ErrReset
 			}
 			c.cur = chunk
 		case <-c.closeq:
@@ -81,9 +110,26 @@ func (c *Conn) Write(b []byte) (int, error) {
 	if c.Closed {
 		return 0, errClosed
 	}
+	if c.reset {
+		return 0, ErrReset
+	}
+	if c.WriteLimit > 0 && len(c.Out)+len(b) > c.WriteLimit {
+		n := c.WriteLimit - len(c.Out)
+		if n < 0 {
+			n = 0
+		}
+		c.Out = append(c.Out, b[:n]...)
+		if c.link != nil && !c.link.Closed && n > 0 {
+			c.link.inq <- append([]byte{}, b[:n]...)
+			c.link.pushed++
+		}
+		c.reset = true
+		return n, ErrReset
+	}
 	c.Out = append(c.Out, b...)
 	if c.link != nil && !c.link.Closed && len(b) > 0 {
 		c.link.inq <- append([]byte{}, b...)
+		c.link.pushed++
 	}
 	return len(b), nil
 }
@@ -94,6 +140,7 @@ func (c *Conn) Close() error {
 		close(c.closeq)
 		if c.link != nil && !c.link.Closed {
 			c.link.inq <- nil // the other end reads EOF
+			c.link.pushed++
 		}
 	}
 	return nil
@@ -105,8 +152,8 @@ func (c *Conn) SetReadDeadline(t time.Time) error  { return nil }
 func (c *Conn) SetWriteDeadline(t time.Time) error { return nil }
 
 // peer side
-func (c *Conn) PeerSend(b []byte) { c.inq <- append([]byte{}, b...) }
-func (c *Conn) PeerHangup()       { c.inq <- nil }
+func (c *Conn) PeerSend(b []byte) { c.inq <- append([]byte{}, b...); c.pushed++ }
+func (c *Conn) PeerHangup()       { c.inq <- nil; c.pushed++ }
 
 type Listener struct {
 	addr    Addr
@@ -117,9 +164,16 @@ type Listener struct {
 	tcp     *net.TCPAddr
 }
 
+// FailAccept makes the next Accept report err (a connection that was reset before it could be accepted, a
+// descriptor shortage, ...).
+func (l *Listener) FailAccept(err error) { l.acceptq <- &Conn{acceptErr: err} }
+
 func (l *Listener) Accept() (net.Conn, error) {
 	select {
 	case c := <-l.acceptq:
+		if c.acceptErr != nil {
+			return nil, c.acceptErr
+		}
 		return c, nil
 	case <-l.closeq:
 		return nil, errClosed
